@@ -229,6 +229,11 @@ fn conds() -> Vec<E> {
         E::bin(Bin::And, E::bin(Bin::Lt, E::col("A.x"), E::int(2)), E::un(Un::Not, E::col("B.v"))),
         E::bin(Bin::Or, E::col("x"), E::bin(Bin::Eq, E::col("y"), E::str("s"))),
         E::bin(Bin::Eq, E::un(Un::Not, E::col("x")), E::int(0)),
+        // conjunctions (given as one with() call and as one call per conjunct)
+        // whose conjuncts bind weaker than AND
+        E::bin(Bin::And, E::bin(Bin::Or, E::col("x"), E::bin(Bin::Eq, E::col("y"), E::str("s"))), E::bin(Bin::Lt, E::col("x"), E::int(2))),
+        E::bin(Bin::And, E::bin(Bin::Lt, E::col("x"), E::int(2)), E::bin(Bin::Or, E::col("x"), E::col("y"))),
+        E::bin(Bin::And, E::bin(Bin::And, E::bin(Bin::Or, E::col("x"), E::col("y")), E::un(Un::Not, E::col("y"))), E::bin(Bin::Or, E::col("y"), E::int(0))),
     ]
 }
 
@@ -240,6 +245,7 @@ fn operands() -> Vec<Sel> {
         Sel::Wrap { from: Box::new(Sel::table("A")), cols: vec!["x".into()], cond: None },
         Sel::Wrap { from: Box::new(Sel::table("B")), cols: vec![], cond: Some(c[2].clone()) },
         Sel::Wrap { from: Box::new(Sel::table("A")), cols: vec!["y".into(), "x".into()], cond: Some(c[3].clone()) },
+        Sel::Wrap { from: Box::new(Sel::table("A")), cols: vec![], cond: Some(c[4].clone()) },
     ]
 }
 
@@ -291,7 +297,8 @@ fn queries() -> Vec<Q> {
     let c = conds();
     let mut out: Vec<Q> = selects().into_iter().map(Q::Select).collect();
     let lits = [Val::Int(1), Val::Int(-5), Val::Null, Val::s("s"), Val::s(""), Val::s("two words"), Val::Int(i32::MAX)];
-    for cond in [None, Some(c[2].clone()), Some(c[3].clone())] {
+    for cond in [None, Some(c[2].clone()), Some(c[3].clone()), Some(c[4].clone()), Some(c[5].clone()), Some(c[6].clone())] {
+        out.push(Q::Select(Sel::Wrap { from: Box::new(Sel::table("A")), cols: vec![], cond: cond.clone() }));
         out.push(Q::Delete("A".into(), cond.clone()));
         for a in &lits {
             out.push(Q::Update("A".into(), vec![("x".into(), a.clone())], cond.clone()));
@@ -367,13 +374,22 @@ fn from_equiv(a: &ParsedFrom, b: &ParsedFrom) -> bool {
     }
 }
 
-fn check_query(q: &Q) -> Option<(String, String)> {
+fn check_query(q: &Q, split: bool) -> Option<(String, String)> {
+    let parts = |c: &E| -> Vec<msi::Expr> {
+        if split {
+            c.conjuncts().into_iter().map(|e| e.to_msi()).collect()
+        } else {
+            vec![c.to_msi()]
+        }
+    };
     let (text, kind) = match catch(|| match q {
-        Q::Select(s) => (s.to_msi().to_string(), "select"),
+        Q::Select(s) => (if split { s.to_msi_split().to_string() } else { s.to_msi().to_string() }, "select"),
         Q::Delete(t, c) => {
             let mut d = msi::Delete::from(t.clone());
             if let Some(c) = c {
-                d = d.with(c.to_msi());
+                for e in parts(c) {
+                    d = d.with(e);
+                }
             }
             (d.to_string(), "delete")
         }
@@ -390,7 +406,9 @@ fn check_query(q: &Q) -> Option<(String, String)> {
                 u = u.set(n.clone(), v.to_msi());
             }
             if let Some(c) = c {
-                u = u.with(c.to_msi());
+                for e in parts(c) {
+                    u = u.with(e);
+                }
             }
             (u.to_string(), "update")
         }
@@ -415,8 +433,8 @@ fn check_query(q: &Q) -> Option<(String, String)> {
         None
     } else {
         Some((
-            format!("structure-changed-{}", kind),
-            format!("query {:?} prints as `{}`, which reads as {:?}", q, text, parsed),
+            format!("structure-changed-{}{}", kind, if split { ":one-with-per-conjunct" } else { "" }),
+            format!("query {:?}{} prints as `{}`, which reads as {:?}", q, if split { " (built with one with() call per conjunct)" } else { "" }, text, parsed),
         ))
     }
 }
@@ -476,8 +494,10 @@ pub fn run(tier: Tier) -> i32 {
     }
     let qs = queries();
     for q in &qs {
-        if let Some((sig, detail)) = check_query(q) {
-            rep.violation(sig, detail, json!({"kind":"c19-query","query": q}));
+        for split in [false, true] {
+            if let Some((sig, detail)) = check_query(q, split) {
+                rep.violation(sig, detail, json!({"kind":"c19-query","query": q, "split": split}));
+            }
         }
     }
     let evals = total + d1.len() + chain_n;
@@ -495,7 +515,7 @@ pub fn run(tier: Tier) -> i32 {
     rep.set("queries", qs.len());
     rep.set("rows_per_tree", 49);
     rep.set("exhaustive", true);
-    rep.set("rule", format!("all expression trees of depth <= 2 over 3 prefix + 17 binary operators and leaves {:?} (index space enumerated completely), thorough adds every depth-3 operator chain with every side choice; each printed, parsed by the independent precedence parser, rebuilt and evaluated by the library next to the original on 49 real rows; {} queries (all four kinds, joins to depth 2, sub-selects) compared structurally. distinct_nontrivial = trees whose text needed at least one parenthesis", lv.iter().map(|l| l.show()).collect::<Vec<_>>(), qs.len()));
+    rep.set("rule", format!("all expression trees of depth <= 2 over 3 prefix + 17 binary operators and leaves {:?} (index space enumerated completely), thorough adds every depth-3 operator chain with every side choice; each printed, parsed by the independent precedence parser, rebuilt and evaluated by the library next to the original on 49 real rows; {} queries (each built with one with() call and with one call per conjunct; all four kinds, joins to depth 2, sub-selects) compared structurally. distinct_nontrivial = trees whose text needed at least one parenthesis", lv.iter().map(|l| l.show()).collect::<Vec<_>>(), qs.len()));
     for idx in [0, total / 3, total / 2, total - 1] {
         let e = tree_at(&d1, idx);
         let text = catch(|| e.to_msi().to_string()).unwrap_or_default();
@@ -522,6 +542,7 @@ pub fn replay(doc: &serde_json::Value) {
     } else {
         let q: Q = serde_json::from_value(doc["query"].clone()).expect("query");
         println!("query: {:?}", q);
-        println!("verdict: {:?}", check_query(&q));
+        println!("verdict: {:?}", check_query(&q, false));
+        println!("verdict (one with() call per conjunct): {:?}", check_query(&q, true));
     }
 }
